@@ -904,17 +904,51 @@ func (u Uint128) Format(s fmt.State, c rune) {
 }
 
 // Scan implements fmt.Scanner.
-func (u *Uint128) Scan(state fmt.ScanState, _ rune) error {
+func (u *Uint128) Scan(state fmt.ScanState, verb rune) error {
 	t, err := state.Token(true, nil)
 	if err != nil {
 		return errs.Wrap(err)
 	}
 	var v Uint128
-	if v, err = Uint128FromString(string(t)); err != nil {
+	if v, err = Uint128FromString(scanText(string(t), verb)); err != nil {
 		return errs.Wrap(err)
 	}
 	*u = v
 	return nil
+}
+
+// scanText turns the token read for the given scan verb into text that carries its base, so that text printed with
+// one of the verbs b, o, O, d, x or X is read back in the base it was printed in.
+func scanText(text string, verb rune) string {
+	var prefix string
+	switch verb {
+	case 'b':
+		prefix = "0b"
+	case 'o', 'O':
+		prefix = "0o"
+	case 'd':
+	case 'x', 'X':
+		prefix = "0x"
+	default:
+		return text
+	}
+	var sign string
+	if text != "" && (text[0] == '+' || text[0] == '-') {
+		sign = text[:1]
+		text = text[1:]
+	}
+	if len(text) > 1 && text[0] == '0' && strings.ContainsRune("bBoOxX", rune(text[1])) {
+		return sign + text // Already carries its base
+	}
+	if verb == 'd' {
+		// Drop any zero padding, so that it is not mistaken for the prefix of an octal number
+		if trimmed := strings.TrimLeft(text, "0"); trimmed != "" && trimmed[0] >= '0' && trimmed[0] <= '9' {
+			text = trimmed
+		} else if text != "" && trimmed != text {
+			text = "0" + trimmed
+		}
+	}
+	return sign + prefix + text
 }
 
 // MarshalText implements encoding.TextMarshaler.
